@@ -146,15 +146,15 @@ class SymIntegration:
         self.Integration = Integration
         self.ir = cmods.load_ir()
         self.cap = thomas.Capture(self.ir) if contract else None
-        sb = cmods.SymBackend(self.ir)
+        sb = cmods.SymBackend(self.ir, flatten=not contract)
         self.intc = cmods.make_module('integration_c', PYX_INT, sb)
         self.tric = cmods.make_module('tridiag_cython', PYX_TRI, sb)
-        self.rec = thomas.SweepRecorder(self.intc, self.cap) if contract else None
+        self.rec = thomas.SweepRecorder(self.intc, self.cap)
         shims.install_numpy(Integration)
         shims.install_numpy(Misc)
         shims.install_numpy(PhiManip)
         shims.install_numpy(Numerics)
-        shims.set_attr(Integration, 'int_c', self.rec if contract else self.intc)
+        shims.set_attr(Integration, 'int_c', self.rec)
         shims.set_attr(Integration, 'tridiag', self.tric)
         dummy = types.SimpleNamespace(cache=[], IntegrationConst=lambda **k: None,
                                       IntegrationNonConst=lambda **k: None)
